@@ -65,7 +65,9 @@ func NewTrailingWhitespaceRule() *TrailingWhitespaceRule {
 func (r *TrailingWhitespaceRule) Check(ctx *linter.Context) ([]linter.Violation, error) {
 	violations := []linter.Violation{}
 
-	for lineNum, line := range ctx.Lines {
+	// analysed with literal and comment content masked: blanks at the end of a line of a
+	// multi-line literal, or of a comment, are content, not layout
+	for lineNum, line := range linter.MaskedLines(ctx.SQL) {
 		// Check if line has trailing whitespace
 		if len(line) == 0 {
 			continue
@@ -83,7 +85,7 @@ func (r *TrailingWhitespaceRule) Check(ctx *linter.Context) ([]linter.Violation,
 				Severity:   r.Severity(),
 				Message:    "Line has trailing whitespace",
 				Location:   models.Location{Line: lineNum + 1, Column: column},
-				Line:       line,
+				Line:       ctx.Lines[lineNum],
 				Suggestion: "Remove trailing spaces or tabs from the end of the line",
 				CanAutoFix: true,
 			})
@@ -103,11 +105,17 @@ func (r *TrailingWhitespaceRule) Check(ctx *linter.Context) ([]linter.Violation,
 //
 // Returns the fixed content with all trailing whitespace removed, and nil error.
 func (r *TrailingWhitespaceRule) Fix(content string, violations []linter.Violation) (string, error) {
+	// Literal, quoted-identifier and comment content is masked so that it is left alone
+	// even where it spans several lines.
+	content, restore, ok := linter.MaskForRewrite(content)
+	if !ok {
+		return content, nil
+	}
 	lines := strings.Split(content, "\n")
 
 	for i, line := range lines {
 		lines[i] = strings.TrimRight(line, " \t")
 	}
 
-	return strings.Join(lines, "\n"), nil
+	return restore(strings.Join(lines, "\n")), nil
 }
